@@ -1,6 +1,6 @@
 CONSTANTS
   NDocs = 24
-  NOperators = 43
+  NOperators = 44
   MaxSite = 5
 INIT Init
 NEXT Next
